@@ -39,6 +39,7 @@ def run(ctx):
     for r in recs:
         groups.setdefault((r["idx"], r["mode"]), []).append(r)
     da_reqs, da_meta = [], []
+    reorder_reqs, reorder_meta = [], []
     ctx.findings = ctx.findings + common.load_findings("C06")
     for (idx, mode), rs in sorted(groups.items()):
         oks = [r for r in rs if r["ok"]]
@@ -92,10 +93,43 @@ def run(ctx):
                         ctx.stat("known_bad_class_skipped"); ctx.oblig -= 1
                     else:
                         ctx.violation(dict(kind="variants-wrong", yaml=rs[0]["yaml"], mode=mode, text=oks[0]["text"], reason=vs[0][2], inputs=oks[0]["execs"][0]["inputs"]), True)
+        if len(texts) >= 2:
+            # how the variants differ: pure re-orderings of the same statements (C08.reorder_sound applies to the section that is
+            # re-ordered when conflicting statements keep their order - established here per sample by C06's DA and by execution),
+            # re-orderings up to the numbering of temporaries, or different statement chains (C08.split_comm)
+            import re as _re
+            def _key(t, norm):
+                ls = [l.strip() for l in t.split("\n") if l.strip()]
+                if norm:
+                    ls = [_re.sub(r"tmp\d+", "tmp", l) for l in ls]
+                return sorted(ls)
+            tl = list(texts)
+            if all(_key(t, False) == _key(tl[0], False) for t in tl[1:]):
+                ctx.stat("variants_pure_reordering")
+                for t in tl[1:]:
+                    reorder_reqs.append({"op": "reorder_check", "tree1": texts[tl[0]][0]["tree"], "tree2": texts[t][0]["tree"]})
+                    reorder_meta.append((rs[0], tl[0], t))
+            elif all(_key(t, True) == _key(tl[0], True) for t in tl[1:]):
+                ctx.stat("variants_reordering_up_to_tmp_numbering")
+            else:
+                ctx.stat("variants_different_statements")
         if len(texts) >= 2 and len(ctx.samples) < 3:
             ctx.sample({"einsum": rs[0]["yaml"]["einsum"]["expressions"], "partitioning": (rs[0]["yaml"].get("mapping") or {}).get("partitioning"),
                         "distinct_texts": len(texts), "seeds": len(oks)})
     c06.check_records(ctx, da_reqs)
+    # variants that are re-orderings of the same top-level statements: every pair with conflicting footprints keeps its order, so
+    # C08.reorder_sound gives the same final store from EVERY initial store (not only on the sampled inputs)
+    for (r0, ta, tb), a in zip(reorder_meta, common.lean_batch(reorder_reqs)):
+        if "error" in a:
+            raise common.InternalError("lean: " + a["error"])
+        if not a["applicable"]:
+            ctx.stat("reorder_check_not_applicable"); continue
+        ctx.stat("reorder_check_applied"); ctx.stat("reordered_statements", a["moved"])
+        ctx.ob(a["order_kept"])
+        if not a["order_kept"]:
+            ctx.violation(dict(kind="reordering-crosses-conflict", yaml=r0["yaml"], mode=r0["mode"], variant_a=ta, variant_b=tb, pairs=a["violating_pairs"],
+                               obligation="hypothesis of C08.reorder_sound: statements with conflicting footprints keep their relative order in both emission orders",
+                               reason="two emission orders of the same statements exchange statements with conflicting footprints: %r" % a["violating_pairs"][:1]), False)
     # every distinct variant against the Lean model compilers: a variant whose loops are the model nest's and for which the
     # theorem's decidable hypotheses hold computes the Einsum's meaning for EVERY input (C02.model_partitioned / C03.static_then_chain /
     # flatten_nest), hence all such variants of one specification compute identical tensors on all inputs, not only the sampled ones
